@@ -1,7 +1,8 @@
 CONSTANTS
   Top = "A"
+  CaOf <- SecondSlots
   ShadowRebuilt = TRUE
-  Sub = {"B", "C", "D"}
+  Sub = {"B", "C", "D", "C2", "D2"}
   Res = {"p1", "p2", "p3", "a1", "a2"}
   TopRes = {"p1", "p2", "a1"}
   Roa <- TraceRoa
